@@ -14,8 +14,12 @@ use std::collections::{BTreeMap, BTreeSet};
 pub mod expr;
 pub mod lib_table;
 pub mod stmt;
+pub mod ts;
 
 pub const MARK: char = '\u{E000}';
+/// start / end of an optional TypeScript-only text block (stripped in the JavaScript rendering)
+pub const TS_OPEN: char = '\u{E001}';
+pub const TS_CLOSE: char = '\u{E002}';
 
 #[derive(Clone, Debug, PartialEq)]
 pub enum Ty {
@@ -118,14 +122,16 @@ pub struct Config {
     pub alloc_bias: bool,
     /// wrap the whole program in an IIFE without global writes (C14)
     pub self_contained: bool,
+    /// emit TypeScript decoration slots inside expressions and between statements (C03)
+    pub ts_slots: bool,
 }
 
 impl Config {
     pub fn clean(max_stmts: usize) -> Config {
-        Config { profile: Profile::Clean, max_stmts, max_depth: 3, allow_async: false, alloc_bias: false, self_contained: false }
+        Config { profile: Profile::Clean, max_stmts, max_depth: 3, allow_async: false, alloc_bias: false, self_contained: false, ts_slots: false }
     }
     pub fn full(max_stmts: usize) -> Config {
-        Config { profile: Profile::Full, max_stmts, max_depth: 3, allow_async: false, alloc_bias: false, self_contained: false }
+        Config { profile: Profile::Full, max_stmts, max_depth: 3, allow_async: false, alloc_bias: false, self_contained: false, ts_slots: false }
     }
 }
 
@@ -155,6 +161,8 @@ pub struct Gen<'t, 'a, 'g> {
     pub shadow_depth: usize,
     /// >0 while generating the body of a finally block
     pub in_finally: usize,
+    /// while set, `any` positions avoid number-typed values
+    pub no_numbers: bool,
     /// round-robin counters so that operator × type pairs and library entries are all hit
     pub rr: BTreeMap<&'static str, usize>,
 }
@@ -180,6 +188,7 @@ impl<'t, 'a, 'g> Gen<'t, 'a, 'g> {
             block_depth: 0,
             shadow_depth: 0,
             in_finally: 0,
+            no_numbers: false,
             rr: BTreeMap::new(),
         }
     }
@@ -210,6 +219,15 @@ impl<'t, 'a, 'g> Gen<'t, 'a, 'g> {
         s.push(kind);
         s.push(ty.hint());
         s
+    }
+
+    /// text that exists only in the TypeScript rendering (when the decoration keeps it)
+    pub fn ts_only(&self, text: &str) -> String {
+        if self.cfg.ts_slots {
+            format!("{}{}{}", TS_OPEN, text, TS_CLOSE)
+        } else {
+            String::new()
+        }
     }
 
     pub fn declare(&mut self, name: &str, ty: Ty, mutable: bool) {
@@ -262,11 +280,16 @@ impl<'t, 'a, 'g> Gen<'t, 'a, 'g> {
 pub fn render_plain(src: &str) -> String {
     let mut out = String::with_capacity(src.len());
     let mut it = src.chars();
+    let mut depth = 0usize;
     while let Some(c) = it.next() {
         if c == MARK {
             it.next();
             it.next();
-        } else {
+        } else if c == TS_OPEN {
+            depth += 1;
+        } else if c == TS_CLOSE {
+            depth = depth.saturating_sub(1);
+        } else if depth == 0 {
             out.push(c);
         }
     }
@@ -335,6 +358,9 @@ pub fn gen_script(tape: &mut Tape, gates: &Gates, cfg: Config) -> Program {
     while g.stmt_budget > 0 {
         g.stmt_budget -= 1;
         let s = g.stmt(0);
+        if g.cfg.ts_slots {
+            lines.push(g.mark('s', &Ty::Any));
+        }
         lines.push(s);
     }
     let d = g.deferred.pop().unwrap_or_default();
